@@ -81,7 +81,7 @@ func funcRound(js JSWriter, args []ast.Node) {
 		js.Write("Math.round(", args[0], ")")
 	default:
 		js.Write(
-			"Math.round(", args[0], "* Math.pow(10, ", args[1], ")) / Math.pow(10, ", args[1], ")")
+			"(Math.round(", args[0], "* Math.pow(10, ", args[1], ")) / Math.pow(10, ", args[1], "))")
 	}
 }
 
